@@ -1498,10 +1498,10 @@ class SpaceManager(SharedSpaceOperations):
     def new_ref(self, space, name, value, refmode):
 
         for subspace in self._get_subs(space, skip_self=False):
-            if name in subspace.namespace:
-                other = subspace._namespace.fresh[name]
-                if not isinstance(other, ReferenceImpl):
-                    raise ValueError("Cannot create reference '%s'" % name)
+            # Not by the namespace, in which a model-level reference
+            # of the name would hide the child space
+            if name in subspace.cells or name in subspace.named_spaces:
+                raise ValueError("Cannot create reference '%s'" % name)
 
         self._check_subs_relrefs(space, name, value, refmode)
         result = space.on_create_ref(name, value, is_derived=False,
